@@ -9,6 +9,7 @@ area = "reply"
 driver = "drv_reply"
 cxx = False
 fixed_lines = 2
+link_extra = ("-Wl,--wrap=malloc", "-Wl,--wrap=realloc")
 rule = ("three kinds of scripts. stream: 's open <idlen>' (mpt_stream_input on a socketpair, the driver is the peer), then for 7 "
         "kinds of id header (zero, 1, 7fff.., reply-marked, ff.., 0100.., too short) a request frame handled by a scripted handler "
         "running EVERY act list up to length 3 over {reply:4142, reply:-, replynull, defer, ret:0, ret:-4, ret:5}, header widths "
@@ -56,7 +57,7 @@ A, B = "0102", "0304"
 OPS = ["r arm " + A, "r arm " + B, "r reply 6d31", "r reply none", "r defer", "r dreply 0 6d32", "r dreply 1 6d33",
        "r drop 0", "r drop 1", "r drop ctx", "r creply 3 6869"]
 # less frequent entry points, combined exhaustively only up to length 3
-OPS2 = OPS + ["r arm zero:2", "r arm -", "r probe", "r reref", "r creply -4 -", "r creply 200 61", "r lreply 2 6869", "r lreply -3 -", "r lreply 0 61", "r lreply -129 61"]
+OPS2 = OPS + ["r arm zero:2", "r arm -", "r probe", "r reref", "r creply -4 -", "r creply 200 61", "r defer nomem", "r lreply 2 6869", "r lreply -3 -", "r lreply 0 61", "r lreply -129 61"]
 SCHEDS = ["r send", "r send fail", "r send ok fail", "r send fail fail fail fail fail fail fail fail"]
 CLOSE = ["r drop 0", "r drop 1", "r drop ctx"]
 
@@ -106,6 +107,32 @@ def scripts(tier, seed, scale=1):
                     lines.append("s req %s %s" % ((idh + ["7a", "", "6100", "00"][k % 4]) or "-", ",".join(seq)))
                 lines.append("s close")
                 out.append(("s:%d/%s" % (w, "+".join(a.replace(":", "") for a in seq)), lines))
+    # reply attempts the stream cannot take (its write queue may not grow: realloc wrapped; 1st growth = before the id,
+    # 2nd growth = in the middle of a 600-byte message, which the stream has to take back): refused, nothing on the
+    # wire, then retried / answered by default exactly once — first request of a fresh stream or connection
+    BIG = "6b" * 600
+    FACTS = ["replyfail:41", "replyfail:-", "replyfail2:" + BIG, "reply:4142", "replynull", "defer", "ret:-4"]
+    for v in ("s", "c"):
+        for w in (1, 2, 8):
+            for n in (1, 2, 3):
+                for seq in itertools.product(FACTS, repeat=n):
+                    if not any(a.startswith("replyfail") for a in seq):
+                        continue
+                    idh = gen.hexs([0] * (w - 1) + [7])
+                    lines = ["%s open %d" % (v, w), "%s req %s7a %s" % (v, idh, ",".join(seq)), "%s req %s7b reply:43" % (v, idh)]
+                    if v == "c":
+                        lines += ["c dreply 0 4444", "c dreply 0 none"]
+                    lines.append("%s close" % v)
+                    out.append(("%sf:%d/%s" % (v, w, "+".join(a.split(":")[0] + str(len(a)) for a in seq)), lines))
+    # a stream that cannot be written (no transport to answer on): handlers run without reply context; the other
+    # interfaces of the stream input (conversions, references, clone)
+    for w in (0, 1, 2, 9):
+        for seq in itertools.product(ACTS, repeat=2):
+            lines = ["s open %d ro" % w, "s probe"]
+            for k, idh in enumerate(ids(w)):
+                lines.append("s req %s %s" % ((idh + ["7a", "", "6100", "00"][k % 4]) or "-", ",".join(seq)))
+            lines += ["s probe", "s close", "s probe", "s open %d" % w, "s probe", "s req %s7a %s" % (ids(w)[1] if w else "", seq[0]), "s probe", "s close"]
+            out.append(("sro:%d/%s" % (w, "+".join(a.replace(":", "") for a in seq)), lines))
     # stream-backed connection (connection_dispatch.c on the deferrable context): same requests, deferred handles
     # answered / dropped afterwards, also after the connection is closed
     for w in (0, 1, 2, 9):
